@@ -1,3 +1,4 @@
 import WsProofs.Props.C20
 import WsProofs.Props.C19
 import WsProofs.Props.C18
+import WsProofs.Props.C08
